@@ -1,6 +1,7 @@
 (* Properties/C09.v — Hiding: every commitment carries fresh independent blinding from the prover RNG.
    Structural statement (simulation-based zero knowledge is not formalised, see DESIGN.md §9). *)
 Require Import BP.Proofs.HidingLemmas.
+Require Import BP.Proofs.IndepLemmas.
 Open Scope F_scope.
 Open Scope M_scope.
 
@@ -81,3 +82,23 @@ Theorem C09_fixed_components_gate_free :
        ipp_a p = f0 /\ ipp_b p = (- f1)%F /\ ipp_L p = [] /\ ipp_R p = [].
 Proof. intros; split; [apply gate_free_tx | apply gate_free_ab; assumption]. Qed.
 Print Assumptions C09_fixed_components_gate_free.
+
+(* Perfect hiding of each blinded component in a cyclic group (every point a multiple of B~): a commitment
+   to v under r is a commitment to any v' under exactly one r', and a blinded vector commitment d.B~ + W is
+   d'.B~ + W' for exactly one d'.  With d uniform (a fresh draw, C09_blinding_layout) the component is therefore
+   uniform whatever the witness. *)
+Theorem C09_pedersen_perfectly_hiding :
+  forall (K : FieldOps) (FL : FieldLaws K) (MO : ModOps K) (ML : ModLaws MO) (B Bb : MO) (beta v r v' : K),
+    Bb <> m0 -> B = beta • Bb ->
+    pedersen_commit B Bb v r = pedersen_commit B Bb v' (r + beta * (v - v'))%F
+    /\ (forall r' : K, pedersen_commit B Bb v r = pedersen_commit B Bb v' r' -> r' = (r + beta * (v - v'))%F).
+Proof. intros; apply pedersen_perfectly_hiding; assumption. Qed.
+Print Assumptions C09_pedersen_perfectly_hiding.
+
+Theorem C09_blinded_component_perfectly_hiding :
+  forall (K : FieldOps) (FL : FieldLaws K) (MO : ModOps K) (ML : ModLaws MO) (Bb W W' : MO) (omega omega' d : K),
+    Bb <> m0 -> W = omega • Bb -> W' = omega' • Bb ->
+    d • Bb + W = (d + (omega - omega'))%F • Bb + W'
+    /\ (forall d' : K, d • Bb + W = d' • Bb + W' -> d' = (d + (omega - omega'))%F).
+Proof. intros; apply blinded_component_perfectly_hiding; assumption. Qed.
+Print Assumptions C09_blinded_component_perfectly_hiding.
